@@ -2,7 +2,7 @@
 
 from __future__ import annotations
 
-from asyncio import CancelledError, ensure_future, gather
+from asyncio import CancelledError, ensure_future, gather, shield
 from contextlib import suppress
 from copy import copy
 from typing import TYPE_CHECKING, Any, NamedTuple, cast
@@ -251,6 +251,24 @@ class IncrementalExecutor(Executor[DeliveryGroupMap]):
             await gather(*awaitables, return_exceptions=True)
 
         return settle_awaitables()
+
+    async def abort_and_settle(self) -> None:
+        """Abort the incremental work produced by this executor and await the cleanup.
+
+        This is used by tasks that failed or have been cancelled. When such a task
+        is cancelled (again) while it awaits the asynchronous part of the cleanup,
+        the cleanup must not be interrupted, since nobody would run it again; it is
+        then settled in the background instead.
+        """
+        abort_result = self.abort()
+        if self.is_awaitable(abort_result):
+            future = ensure_future(abort_result)
+            try:
+                await shield(future)
+            except CancelledError:
+                if not future.done():
+                    self.settle_in_background([future])
+                raise
 
     async def cancel_incremental_work(
         self, reason: BaseException | None = None
@@ -540,9 +558,7 @@ class IncrementalExecutor(Executor[DeliveryGroupMap]):
                 try:
                     data = await result
                 except (Exception, CancelledError):
-                    abort_result = self.abort()
-                    if self.is_awaitable(abort_result):
-                        await abort_result
+                    await self.abort_and_settle()
                     raise
                 return self.build_execution_group_result(delivery_groups, path, data)
 
@@ -797,9 +813,7 @@ class IncrementalExecutor(Executor[DeliveryGroupMap]):
                         None,
                     )
                 except (Exception, CancelledError):
-                    abort_result = self.abort()
-                    if is_awaitable(abort_result):
-                        await abort_result
+                    await self.abort_and_settle()
                     raise
                 return self.build_stream_item_result(completed)
 
@@ -836,9 +850,7 @@ class IncrementalExecutor(Executor[DeliveryGroupMap]):
                         )
                         resolved = None
                 except (Exception, CancelledError):
-                    abort_result = self.abort()
-                    if is_awaitable(abort_result):
-                        await abort_result
+                    await self.abort_and_settle()
                     raise
                 return self.build_stream_item_result(resolved)
 
